@@ -1721,10 +1721,9 @@ impl OutstationSession {
                         frame_id,
                         controls.hash(),
                     ) {
-                        Err(status) => {
-                            controls.respond_with_status(&mut cursor, status).unwrap();
-                            status
-                        }
+                        Err(status) => controls
+                            .respond_with_status(&mut cursor, status)
+                            .map(|_| status),
                         Ok(()) => {
                             let max_controls_per_request = self.config.max_controls_per_request;
                             ControlTransaction::execute(
@@ -1739,7 +1738,6 @@ impl OutstationSession {
                                             db,
                                             max_controls_per_request,
                                         )
-                                        .unwrap()
                                 },
                             )
                             .await
@@ -1748,8 +1746,9 @@ impl OutstationSession {
                 }
                 None => {
                     let status = CommandStatus::NoSelect;
-                    controls.respond_with_status(&mut cursor, status).unwrap();
-                    status
+                    controls
+                        .respond_with_status(&mut cursor, status)
+                        .map(|_| status)
                 }
             };
 
@@ -1759,7 +1758,8 @@ impl OutstationSession {
         // Calculate IIN and return it
         let mut iin = Iin::default();
 
-        if status == CommandStatus::NotSupported {
+        // a response that does not fit the transmit buffer is sent truncated, as for SELECT and DIRECT_OPERATE
+        if let Ok(CommandStatus::NotSupported) = status {
             iin |= Iin2::PARAMETER_ERROR;
         }
 
